@@ -91,7 +91,7 @@ def main():
                 pass
             ck_args = ["/verif/bin/govc", "check", "-repo", WT, "-verif", OUT, "-props", pid, "-tier", "quick"]
             if "--noreplay" in sys.argv:
-                ck_args += ["-noreplay", "-t2", "25"]
+                ck_args += ["-noreplay"] + ([] if "--fullbudget" in sys.argv else ["-t2", "25"])
             ck = sh(*ck_args)
             viol = [l for l in ck.stdout.splitlines() if l.startswith("VIOLATION")]
             meta["check_cmd"] = f"govc check -repo <scratch worktree with patch> -props {pid} -tier quick (same engine and contracts as ./check {pid} quick)"
